@@ -158,7 +158,8 @@ class BocWireWorld(World):
     def __init__(self, prop, tier):
         super().__init__(prop, tier)
         q = tier == 'quick'
-        self.legs = [('fault-free', 6000 if q else 200000), ('faults', 1200 if q else 40000), ('big-fault-free', 40 if q else 600)]
+        self.legs = [('fault-free', 6000 if q else 200000), ('faults', 1200 if q else 40000), ('big-fault-free', 40 if q else 600), ('big-crc', 4 if q else 24)]
+        self.run_timeout = 240
         self.budget = {'quick': 110, 'thorough': 1500}
 
     def get_legs(self):
@@ -177,7 +178,14 @@ class BocWireWorld(World):
                 'encodings are seeded samples; the fault set per encoding is exhaustive for the four classes the statement lists',
                 'CRC-32C detects every single-bit error; a flip that clears the CRC flag leaves four surplus bytes']
 
+    BIG_SIZES = [70_000, 300_000, 1_100_000, 2_200_000]
+
     def make_config(self, rng, leg, run_index):
+        if leg == 'big-crc':
+            # 'any single-bit corruption of CRC-protected input' also of LARGE input: bags of 64 KiB .. 4 MiB (a checksum is the first
+            # thing an implementation is tempted to skip or sample when the input gets big)
+            sizes = self.BIG_SIZES + ([4_300_000] if self.tier == 'thorough' else [])
+            return {'bytes': sizes[run_index % len(sizes)] + rng.randrange(5000), 'dag_seed': rng.getrandbits(32), 'leg': leg, 'magic': rng.choice(['generic', 'generic', 'idx_crc'])}
         if leg == 'big-fault-free':
             return {'ncells': rng.choice([300, 1000, 5000]), 'exotic': False, 'dag_seed': rng.getrandbits(32), 'leg': leg}
         if leg == 'faults':
@@ -188,8 +196,51 @@ class BocWireWorld(World):
         return ctx.violation(Violation(self.prop, invariant, opkind, klass, msg))
 
     # the whole run is: one encode op, then deliveries
+    def _big_bag(self, cfg):
+        r = random.Random(cfg['dag_seed'])
+        n_leaves = cfg['bytes'] // 131 + 1
+        level = [RCell(''.join('01'[b] for b in [r.getrandbits(1) for _ in range(8)]) + bin(r.getrandbits(1008) | (1 << 1008))[3:]) for _ in range(n_leaves)]
+        while len(level) > 1:
+            level = [RCell(bin(r.getrandbits(16) | (1 << 16))[3:], tuple(level[i:i + 4])) for i in range(0, len(level), 4)]
+        root = level[0]
+        kw = dict(magic=cfg['magic'], has_idx=cfg['magic'] != 'generic', has_crc=True)
+        return root, refboc.encode([root], **kw)
+
+    def run_big_crc(self, ctx, ops=None):
+        cfg = ctx.cfg
+        root, data = self._big_bag(cfg)
+        L = len(data)
+        ctx.tag('big-crc', L >> 16, cfg['magic'])
+        ctx.probe('crc-protected-bag-of-%s' % ('<256KiB' if L < 2 ** 18 else '<1MiB' if L < 2 ** 20 else '<2MiB' if L < 2 ** 21 else '>=2MiB'))
+        if ops is None:
+            rng = ctx.rng
+            ops = [{'op': 'deliver-big', 'bit': None}]
+            for pos in (rng.randrange(40, L - 4), rng.randrange(L // 2, L - 4), L - 1 - rng.randrange(4), rng.randrange(5, 30), L - 40):
+                ops.append({'op': 'deliver-big', 'bit': 8 * pos + rng.randrange(8)})
+            ops.append({'op': 'deliver-big', 'bit': None})
+        for o in ops:
+            if o['op'] != 'deliver-big':
+                continue
+            ctx.op(o)
+            ctx.evaluated(1)
+            if o['bit'] is None:
+                ok, res = call(Cell.from_boc, data)
+                if not ok or len(res) != 1 or res[0].hash != root.hash:
+                    self.V(ctx, 'valid-rejected' if not ok else 'roots', 'from_boc', 'big-bag', 'a well-formed %d-byte CRC-protected bag %s' % (L, 'was rejected: %r' % (res,) if not ok else 'parsed to another root'))
+                    return
+                continue
+            b = bytearray(data)
+            b[o['bit'] // 8] ^= 0x80 >> (o['bit'] % 8)
+            ctx.fault('flip')
+            ok, res = call(Cell.from_boc, bytes(b))
+            if ok:
+                self.V(ctx, 'corrupt-accepted', 'from_boc', 'flip-in-big-bag', 'one flipped bit (bit %d of %d bytes) in a CRC-protected bag was accepted' % (o['bit'], L))
+                return
+
     def run(self, ctx):
         cfg = ctx.cfg
+        if cfg['leg'] == 'big-crc':
+            return self.run_big_crc(ctx)
         cells = make_dag(cfg['dag_seed'], cfg['ncells'], cfg['exotic'])
         f = draw_freedoms(ctx.rng, cells)
         enc_op = {'op': 'encode', 'freedoms': f}
@@ -227,6 +278,8 @@ class BocWireWorld(World):
 
     def replay(self, ctx, ops):
         cfg = ctx.cfg
+        if cfg.get('leg') == 'big-crc':
+            return self.run_big_crc(ctx, ops)
         enc = next((o for o in ops if o['op'] == 'encode'), None)
         if enc is None:
             return
